@@ -60,7 +60,14 @@ Record Sim (strict : bool) (st st' : state) : Prop := mkSim {
   sim_gpv : gpv_coh (A st);
   sim_gpv' : gpv_coh (A st');
   sim_gpb : dedup (c_gpb (A st')) = dedup (c_gpb (A st));
-  sim_vc : strict = true -> votes_changed (A st') = votes_changed (A st)
+  sim_vc : strict = true -> votes_changed (A st') = votes_changed (A st);
+  (* Designate / Management: same storage; the caches answer the same *)
+  sim_dss : ds_store (X st') = ds_store (X st);
+  sim_dsc : forall role, aget (0, []) role (ds_cache (X st')) = aget (0, []) role (ds_cache (X st));
+  sim_mgs : mg_store (X st') = mg_store (X st);
+  sim_mgc : forall h, aget mc0 h (mg_cache (X st')) = aget mc0 h (mg_cache (X st));
+  sim_ids : mg_ids (X st') = mg_ids (X st);
+  sim_next : mg_next (X st') = mg_next (X st)
 }.
 
 Lemma Sim_weaken b st st' : Sim b st st' -> Sim false st st'.
@@ -99,8 +106,8 @@ Lemma Sim_withL b st st' l : Sim b st st' -> Sim b (withL st l) (withL st' l).
 Proof. intros []. constructor; simpl; auto. Qed.
 
 Lemma Sim_sameA b st st' s s' :
-  Sim b st st' -> L s' = L s -> A s = A st -> A s' = A st' -> Sim b s s'.
-Proof. intros [] HL HA HA'. constructor; rewrite ?HA, ?HA'; auto. Qed.
+  Sim b st st' -> L s' = L s -> A s = A st -> A s' = A st' -> X s = X st -> X s' = X st' -> Sim b s s'.
+Proof. intros [] HL HA HA' HX HX'. constructor; rewrite ?HA, ?HA', ?HX, ?HX'; auto. Qed.
 
 Lemma Sim_set_vc b st st' v :
   Sim b st st' -> Sim b (withA st (set_votes_changed (A st) v)) (withA st' (set_votes_changed (A st') v)).
@@ -112,6 +119,8 @@ Lemma neo_acc_sim b st st' a : Sim b st st' -> neo_acc st' a = neo_acc st a.
 Proof. intros S. unfold neo_acc. rewrite (sim_L _ _ _ S). reflexivity. Qed.
 Lemma gas_bal_sim b st st' a : Sim b st st' -> gas_bal st' a = gas_bal st a.
 Proof. intros S. unfold gas_bal. rewrite (sim_L _ _ _ S). reflexivity. Qed.
+Lemma contract_of_sim b st st' a : Sim b st st' -> contract_of st' a = contract_of st a.
+Proof. intros S. unfold contract_of. apply (sim_mgc _ _ _ S). Qed.
 Lemma dep_of_sim b st st' a : Sim b st st' -> dep_of st' a = dep_of st a.
 Proof. intros S. unfold dep_of. rewrite (sim_L _ _ _ S). reflexivity. Qed.
 
@@ -361,8 +370,8 @@ Proof.
   apply dep_put_sim. exact S.
 Qed.
 
-Lemma gas_transfer_core_sim b st st' sender from to amount d :
-  Sim b st st' -> SimO b (gas_transfer_core cfg st sender from to amount d) (gas_transfer_core cfg st' sender from to amount d).
+Lemma gas_transfer_core_sim b st st' sender wit from to amount d :
+  Sim b st st' -> SimO b (gas_transfer_core cfg st sender wit from to amount d) (gas_transfer_core cfg st' sender wit from to amount d).
 Proof.
   intros S. unfold gas_transfer_core, ok.
   set (empty := N.eqb from to || (amount =? 0)).
@@ -391,23 +400,23 @@ Proof.
     split; [reflexivity|exact H4].
 Qed.
 
-Lemma gas_transfer_sim b st st' w sender from to amount d :
-  Sim b st st' -> SimO b (gas_transfer cfg st w sender from to amount d) (gas_transfer cfg st' w sender from to amount d).
+Lemma gas_transfer_sim b st st' w sender wit from to amount d :
+  Sim b st st' -> SimO b (gas_transfer cfg st w sender wit from to amount d) (gas_transfer cfg st' w sender wit from to amount d).
 Proof.
   intros S. unfold gas_transfer, ok. destruct (amount <? 0); [exact I|].
   destruct (negb w); [split; [reflexivity|exact S]|apply gas_transfer_core_sim; exact S].
 Qed.
 
-Lemma notary_withdraw_sim b st st' w sender from to0 :
-  Sim b st st' -> SimO b (notary_withdraw cfg st w sender from to0) (notary_withdraw cfg st' w sender from to0).
+Lemma notary_withdraw_sim b st st' w sender wit from to0 :
+  Sim b st st' -> SimO b (notary_withdraw cfg st w sender wit from to0) (notary_withdraw cfg st' w sender wit from to0).
 Proof.
   intros S. unfold notary_withdraw, ok. destruct (negb w); [split; [reflexivity|exact S]|].
   rewrite (dep_of_sim _ _ _ from S), (sim_height _ _ _ S).
   repeat match goal with |- context [if ?c then Some (st, Some false) else _] => destruct c; [split; [reflexivity|exact S]|] end.
-  pose proof (gas_transfer_core_sim b _ _ sender (a_notary cfg) match to0 with Some t => t | None => from end
+  pose proof (gas_transfer_core_sim b _ _ sender wit (a_notary cfg) match to0 with Some t => t | None => from end
                 (damt (dep_of st from)) DNone (dep_put_sim b st st' from dep0 S)) as H.
-  destruct (gas_transfer_core cfg (dep_put st from dep0) _ _ _ _ _) as [[s2 r]|],
-           (gas_transfer_core cfg (dep_put st' from dep0) _ _ _ _ _) as [[s2' r']|]; simpl in H; try contradiction; [|exact I].
+  destruct (gas_transfer_core cfg (dep_put st from dep0) _ _ _ _ _ _) as [[s2 r]|],
+           (gas_transfer_core cfg (dep_put st' from dep0) _ _ _ _ _ _) as [[s2' r']|]; simpl in H; try contradiction; [|exact I].
   destruct H as [-> H]. destruct r as [[|]|]; try exact I. split; [reflexivity|exact H].
 Qed.
 
@@ -482,15 +491,52 @@ Lemma whitelist_set_sim b st st' a fee :
   Sim b st st' -> SimO b (whitelist_set cfg st a fee) (whitelist_set cfg st' a fee).
 Proof.
   intros S. unfold whitelist_set. destruct (fee <? 0); [exact I|].
+  rewrite (contract_of_sim _ _ _ a S). destruct (negb (mc_present (contract_of st a))); [exact I|].
   split; [reflexivity|]. rewrite (sim_pca _ _ _ S), (sim_pst _ _ _ S). destruct S. constructor; simpl; auto.
 Qed.
 
 Lemma whitelist_remove_sim b st st' a :
   Sim b st st' -> SimO b (whitelist_remove st a) (whitelist_remove st' a).
 Proof.
-  intros S. unfold whitelist_remove. rewrite (sim_pca _ _ _ S), (sim_pst _ _ _ S).
+  intros S. unfold whitelist_remove. rewrite (contract_of_sim _ _ _ a S), (sim_pca _ _ _ S), (sim_pst _ _ _ S).
+  destruct (negb (mc_present (contract_of st a))); [exact I|].
   destruct (_ =? 0); [exact I|]. split; [reflexivity|]. destruct S. constructor; simpl; auto.
 Qed.
+
+(* ---------- Designate, Management ---------- *)
+Lemma designate_as_role_sim b st st' role ks :
+  Sim b st st' -> SimO b (designate_as_role st role ks) (designate_as_role st' role ks).
+Proof.
+  intros S. unfold designate_as_role. rewrite (sim_height _ _ _ S), (sim_dss _ _ _ S).
+  repeat match goal with |- context [if ?c then None else _] => destruct c; [exact I|] end.
+  split; [reflexivity|]. pose proof (sim_dsc _ _ _ S) as Hc. destruct S. constructor; simpl; auto; try congruence.
+  intros r0. rewrite !aget_aset. destruct (N.eqb r0 role); [reflexivity|apply Hc].
+Qed.
+
+Lemma mg_put_sim b st st' h c ids ids' next next' :
+  Sim b st st' -> ids' = ids -> next' = next -> Sim b (mg_put st h c ids next) (mg_put st' h c ids' next').
+Proof.
+  intros S -> ->. pose proof (sim_mgc _ _ _ S) as Hc. destruct S. constructor; simpl; auto; try congruence.
+  intros h0. rewrite !aget_aset. destruct (N.eqb h0 h); [reflexivity|apply Hc].
+Qed.
+
+Lemma whitelist_clean_sim b st st' a : Sim b st st' -> Sim b (whitelist_clean st a) (whitelist_clean st' a).
+Proof. intros []. constructor; simpl; auto; congruence. Qed.
+
+Lemma mg_deploy_sim b st st' a : Sim b st st' -> SimO b (mg_deploy st a) (mg_deploy st' a).
+Proof.
+  intros S. unfold mg_deploy. rewrite (is_blocked_sim _ _ _ _ S), (contract_of_sim _ _ _ a S), (sim_next _ _ _ S), (sim_ids _ _ _ S).
+  repeat match goal with |- context [if ?c then None else _] => destruct c; [exact I|] end.
+  split; [reflexivity|]. apply mg_put_sim; auto.
+Qed.
+
+Lemma mg_update_sim b st st' a : Sim b st st' -> SimO b (mg_update st a) (mg_update st' a).
+Proof.
+  intros S. unfold mg_update. rewrite (contract_of_sim _ _ _ a S).
+  repeat match goal with |- context [if ?c then None else _] => destruct c; [exact I|] end.
+  split; [reflexivity|]. apply mg_put_sim; [apply whitelist_clean_sim; exact S|apply (sim_ids _ _ _ S)|apply (sim_next _ _ _ S)].
+Qed.
+
 
 Lemma dedup_cons i v c c' : dedup c' = dedup c -> dedup ((i, v) :: c') = dedup ((i, v) :: c).
 Proof. intros H. simpl. rewrite H. reflexivity. Qed.
@@ -508,6 +554,18 @@ Lemma set_register_price_sim b st st' v :
 Proof.
   intros S. unfold set_register_price. destruct (v <=? 0); [exact I|].
   split; [reflexivity|]. destruct S. constructor; simpl; auto.
+Qed.
+
+Lemma mg_destroy_sim b st st' a : Sim b st st' -> SimO b (mg_destroy cfg st a) (mg_destroy cfg st' a).
+Proof.
+  intros S. unfold mg_destroy. rewrite (contract_of_sim _ _ _ a S).
+  destruct (negb (mc_present (contract_of st a))); [exact I|].
+  pose proof (block_account_sim b st st' (caddr a) S) as H.
+  destruct (block_account cfg st (caddr a)) as [[s1 r1]|], (block_account cfg st' (caddr a)) as [[s1' r1']|];
+    simpl in H; try contradiction; [|exact I].
+  destruct H as [_ H]. split; [reflexivity|].
+  apply mg_put_sim; [apply whitelist_clean_sim; exact H| |apply (sim_next _ _ _ H)].
+  simpl. rewrite (sim_ids _ _ _ H). reflexivity.
 Qed.
 
 (* ---------- transactions ---------- *)
@@ -529,8 +587,14 @@ Proof.
   - destruct (committee_witness st t); [apply block_account_sim; exact S|exact I].
   - destruct (committee_witness st t); [apply unblock_account_sim; exact S|exact I].
   - destruct (committee_witness st t); [apply policy_set_sim; exact S|exact I].
-  - destruct (committee_witness st t && i_halt t); [|exact I].
+  - destruct (committee_witness st t && hf_faun cfg); [|exact I].
     destruct fee; [apply whitelist_set_sim|apply whitelist_remove_sim]; exact S.
+  - destruct (committee_witness st t); [apply designate_as_role_sim; exact S|exact I].
+  - apply mg_deploy_sim; exact S.
+  - apply mg_update_sim; exact S.
+  - apply mg_destroy_sim; exact S.
+  - destruct (i_halt t); [|exact I]. split; [reflexivity|].
+    pose proof (sim_next _ _ _ S) as Hn. destruct S. constructor; simpl; auto; congruence.
   - exact I.
   - destruct (i_halt t); [split; [reflexivity|exact S]|exact I].
 Qed.
@@ -563,7 +627,53 @@ Proof.
   intros S. unfold gas_on_persist. destruct txs as [|t r]; [exact S|].
   pose proof (burn_fees_sim b (t :: r) st st' S) as H.
   destruct (burn_fees st (t :: r)) as [s|], (burn_fees st' (t :: r)) as [s'|]; simpl in H; try contradiction; [|exact I].
-  rewrite (primary_sim _ _ _ H). apply gas_mint_sim. exact H.
+  rewrite (primary_sim _ _ _ H). unfold attr_fee_notary. rewrite (sim_pca _ _ _ H). apply gas_mint_sim. exact H.
+Qed.
+
+Lemma attr_fee_notary_sim b st st' : Sim b st st' -> attr_fee_notary st' = attr_fee_notary st.
+Proof. intros S. unfold attr_fee_notary. rewrite (sim_pca _ _ _ S). reflexivity. Qed.
+
+Lemma charge_deposits_sim b txs : forall st st', Sim b st st' -> SimS b (charge_deposits cfg st txs) (charge_deposits cfg st' txs).
+Proof.
+  induction txs as [|t r IH]; intros st st' S; simpl; [exact S|].
+  destruct (t_na t) as [[nk p]|]; [|apply IH; exact S].
+  destruct (N.eqb (t_signer t) (a_notary cfg)); [|apply IH; exact S].
+  rewrite (dep_of_sim _ _ _ p S).
+  destruct (negb (dpresent (dep_of st p))); [exact I|].
+  match goal with |- context [if ?c then None else _] => destruct c; [exact I|] end.
+  apply IH, dep_put_sim, S.
+Qed.
+
+Lemma mint_each_sim b accts : forall st st' amount, Sim b st st' -> SimS b (mint_each cfg st accts amount) (mint_each cfg st' accts amount).
+Proof.
+  induction accts as [|a r IH]; intros st st' amount S; simpl; [exact S|].
+  pose proof (gas_mint_sim b st st' a amount false S) as H.
+  destruct (gas_mint cfg st a amount false) as [s|], (gas_mint cfg st' a amount false) as [s'|]; simpl in H; try contradiction; [apply IH; exact H|exact I].
+Qed.
+
+Lemma notary_nodes_sim b st st' : Sim b st st' -> notary_nodes st' = notary_nodes st.
+Proof.
+  intros S. unfold notary_nodes, designated, ds_latest. rewrite (sim_dsc _ _ _ S 32%N), (sim_dss _ _ _ S). reflexivity.
+Qed.
+
+Lemma notary_on_persist_sim b st st' txs :
+  Sim b st st' -> SimS b (notary_on_persist cfg st txs) (notary_on_persist cfg st' txs).
+Proof.
+  intros S. unfold notary_on_persist.
+  pose proof (charge_deposits_sim b txs st st' S) as H.
+  destruct (charge_deposits cfg st txs) as [s|], (charge_deposits cfg st' txs) as [s'|]; simpl in H; try contradiction; [|exact I].
+  destruct (na_fees txs =? 0); [exact H|].
+  rewrite (notary_nodes_sim _ _ _ H), (attr_fee_notary_sim _ _ _ H).
+  destruct (notary_nodes s); [exact H|]. apply mint_each_sim. exact H.
+Qed.
+
+Lemma natives_on_persist_sim b st st' txs :
+  Sim b st st' -> SimS b (natives_on_persist cfg st txs) (natives_on_persist cfg st' txs).
+Proof.
+  intros S. unfold natives_on_persist.
+  pose proof (gas_on_persist_sim b st st' txs S) as H.
+  destruct (gas_on_persist cfg st txs) as [s|], (gas_on_persist cfg st' txs) as [s'|]; simpl in H; try contradiction; [|exact I].
+  apply notary_on_persist_sim. exact H.
 Qed.
 
 Lemma neo_on_persist_sim st st' :
@@ -664,7 +774,7 @@ Qed.
 (* coherence of the state on which the next-epoch committee is decided (the first part of run_block_coh) *)
 Lemma pre_recompute_coh st txs st1 st4 :
   Inv cfg (L st) -> Coh cfg st -> Forall (tx_ok cfg) txs ->
-  gas_on_persist cfg (neo_on_persist cfg (withA st (set_height (A st) (height (A st) + 1)))) txs = Some st1 ->
+  natives_on_persist cfg (neo_on_persist cfg (withA st (set_height (A st) (height (A st) + 1)))) txs = Some st1 ->
   post_rewards (fold_left (exec_tx cfg) txs st1) = Some st4 ->
   CohTx cfg st4.
 Proof.
@@ -672,20 +782,20 @@ Proof.
   set (h := height (A st) + 1) in *.
   set (st0 := withA st (set_height (A st) h)) in *.
   assert (C0 : CohTx cfg st0).
-  { destruct C as [c1 c2 c3 c4 c5 c6]. constructor; simpl; auto.
+  { destruct C as [c1 c2 c3 c4 c5 c6 c7 c8]. constructor; simpl; auto.
     all: try (intros Hv; rewrite <- (c6 Hv); apply compute_committee_ext; reflexivity). }
   assert (Cp : CohTx cfg (neo_on_persist cfg st0) /\ L (neo_on_persist cfg st0) = L st).
   { unfold neo_on_persist. simpl. fold h.
     destruct (h mod csize cfg =? 0) eqn:Er; [|split; [exact C0|reflexivity]].
     split; [|reflexivity].
-    destruct C0 as [c1 c2 c3 c4 c5 c6]. simpl in *. constructor; simpl; auto.
+    destruct C0 as [c1 c2 c3 c4 c5 c6 c7 c8]. simpl in *. constructor; simpl; auto.
     intros _. assert (Hr : (height (A st) + 1) mod csize cfg = 0) by (fold h; lia).
     rewrite (Ce Hr). apply compute_committee_ext; reflexivity. }
   destruct Cp as [Cp HLp].
   pose proof (inv_wf _ _ I) as Hwf.
   assert (Hwfp : WF (L (neo_on_persist cfg st0))) by (rewrite HLp; exact Hwf).
-  pose proof (TxStep_of_G cfg _ _ (gas_on_persist_g cfg _ _ _ E1)) as [_ [_ [_ T1]]].
-  pose proof (e_wf _ _ _ _ _ _ _ (gas_on_persist_bal cfg CW _ _ _ Hwfp Hok E1) Hwfp) as Hwf1.
+  pose proof (TxStep_of_G cfg _ _ (natives_on_persist_g cfg _ _ _ E1)) as [_ [_ [_ T1]]].
+  pose proof (e_wf _ _ _ _ _ _ _ (natives_on_persist_bal cfg CW _ _ _ Hwfp Hok E1) Hwfp) as Hwf1.
   pose proof (fold_exec_t cfg CW FIX7 FIX23 FIX46 txs st1 Hwf1 Hok) as [_ [_ [_ T2]]].
   unfold post_rewards in E4.
   match type of E4 with context [gas_mint cfg ?s ?a ?g false] => destruct (gas_mint cfg s a g false) as [st3|] eqn:E3; [|discriminate] end.
@@ -707,18 +817,18 @@ Proof.
   { unfold st0, st0'. rewrite (sim_height _ _ _ S). destruct S. constructor; simpl; auto. }
   pose proof (neo_on_persist_sim _ _ S0) as Sp.
   set (b := height (A st0) mod csize cfg =? 0) in *.
-  pose proof (gas_on_persist_sim b _ _ txs Sp) as H1.
-  destruct (gas_on_persist cfg (neo_on_persist cfg st0) txs) as [s1|] eqn:E1,
-           (gas_on_persist cfg (neo_on_persist cfg st0') txs) as [s1'|] eqn:E1'; simpl in H1; try contradiction; [|exact I].
+  pose proof (natives_on_persist_sim b _ _ txs Sp) as H1.
+  destruct (natives_on_persist cfg (neo_on_persist cfg st0) txs) as [s1|] eqn:E1,
+           (natives_on_persist cfg (neo_on_persist cfg st0') txs) as [s1'|] eqn:E1'; simpl in H1; try contradiction; [|exact I].
   rewrite !neo_post_persist_split.
   pose proof (fold_exec_sim b txs _ _ H1) as S2.
   set (s2 := fold_left (exec_tx cfg) txs s1) in *. set (s2' := fold_left (exec_tx cfg) txs s1') in *.
   assert (Hh2 : height (A s2) = height (A st0)).
-  { pose proof (TxStep_of_G cfg _ _ (gas_on_persist_g cfg _ _ _ E1)) as [h1 _].
+  { pose proof (TxStep_of_G cfg _ _ (natives_on_persist_g cfg _ _ _ E1)) as [h1 _].
     pose proof (inv_wf _ _ II) as Hwf.
     assert (HLp : L (neo_on_persist cfg st0) = L st) by (rewrite neo_on_persist_L; reflexivity).
     assert (Hwfp : WF (L (neo_on_persist cfg st0))) by (rewrite HLp; exact Hwf).
-    pose proof (e_wf _ _ _ _ _ _ _ (gas_on_persist_bal cfg CW _ _ _ Hwfp Hok E1) Hwfp) as Hwf1.
+    pose proof (e_wf _ _ _ _ _ _ _ (natives_on_persist_bal cfg CW _ _ _ Hwfp Hok E1) Hwfp) as Hwf1.
     pose proof (fold_exec_t cfg CW FIX7 FIX23 FIX46 txs s1 Hwf1 Hok) as [h2 _]. fold s2 in h2.
     rewrite h2, h1. unfold neo_on_persist. destruct (height (A st0) mod csize cfg =? 0); reflexivity. }
   assert (Sb : Sim (height (A s2) mod csize cfg =? 0) s2 s2') by (rewrite Hh2; exact S2).
@@ -733,16 +843,20 @@ Qed.
 (* a restarted node is related to the one it was *)
 Lemma reinit_sim st : Coh cfg st -> Sim false st (reinit cfg st).
 Proof.
-  intros [[c1 c2 c3 c4 c5 c6] cm ce]. unfold reinit.
+  intros [[c1 c2 c3 c4 c5 c6 c7 c8] cm ce]. unfold reinit.
   destruct ((height (A st) + 1) mod csize cfg =? 0) eqn:E.
   - constructor; simpl; auto; try discriminate.
     all: try (rewrite c4; apply (dedup_idem cfg)).
     all: try (unfold gpv_coh; simpl; intros k v; discriminate).
+    all: try (intros role; rewrite aget_reinit_ds; symmetry; apply c7).
+    all: try (intros h; symmetry; apply c8).
     assert (Hr : (height (A st) + 1) mod csize cfg = 0) by lia.
     rewrite (ce Hr). apply (compute_committee_ext cfg); simpl; auto.
   - constructor; simpl; auto; try discriminate.
     all: try (rewrite c4; apply (dedup_idem cfg)).
     all: try (unfold gpv_coh; simpl; intros k v; discriminate).
+    all: try (intros role; rewrite aget_reinit_ds; symmetry; apply c7).
+    all: try (intros h; symmetry; apply c8).
     symmetry. apply cm. lia.
 Qed.
 
@@ -754,11 +868,19 @@ Proof.
   intros []. unfold obs, committee_sorted, next_validators, compute_next_validators. congruence.
 Qed.
 
+Lemma Sim_obsX b st st' role index a : Sim b st st' -> obsX st' role index a = obsX st role index a.
+Proof.
+  intros S. unfold obsX, designated, ds_latest, whitelisted_fee.
+  rewrite (contract_of_sim _ _ _ a S), (sim_dsc _ _ _ S role), (sim_dss _ _ _ S), (sim_pca _ _ _ S). reflexivity.
+Qed.
+
 Theorem restart_transparent bs bs' :
   blocks_ok cfg bs -> blocks_ok cfg bs' ->
   let st := reach cfg bs in
   sto (fold_left (step cfg) bs' (reinit cfg st)) = sto (fold_left (step cfg) bs' st)
-  /\ obs cfg (fold_left (step cfg) bs' (reinit cfg st)) = obs cfg (fold_left (step cfg) bs' st).
+  /\ obs cfg (fold_left (step cfg) bs' (reinit cfg st)) = obs cfg (fold_left (step cfg) bs' st)
+  /\ (forall role index a, obsX (fold_left (step cfg) bs' (reinit cfg st)) role index a
+                           = obsX (fold_left (step cfg) bs' st) role index a).
 Proof.
   intros Hok Hok' st.
   destruct (cache_coherent_reach cfg CW FIX7 FIX23 FIX46 CSZ bs Hok) as [C I]. fold st in C, I.
@@ -778,7 +900,7 @@ Proof.
   assert (I' : Inv cfg (L (reinit cfg st))).
   { replace (L (reinit cfg st)) with (L st); [exact I|]. unfold reinit. destruct (_ =? 0); reflexivity. }
   pose proof (G st (reinit cfg st) S0 C (reinit_coh cfg CSZ st C) I I') as S.
-  split; [apply (Sim_sto _ _ _ S)|apply (Sim_obs _ _ _ S)].
+  split; [apply (Sim_sto _ _ _ S)|split; [apply (Sim_obs _ _ _ S)|intros role index a; apply (Sim_obsX _ _ _ role index a S)]].
 Qed.
 
 (* any number of restarts at any block boundaries *)
@@ -800,7 +922,8 @@ Proof. intros [] []. constructor; try congruence; auto. Qed.
 Theorem restarts_transparent es :
   blocks_ok cfg (gblocks es) ->
   sto (fold_left gstep es (genesis cfg)) = sto (reach cfg (gblocks es))
-  /\ obs cfg (fold_left gstep es (genesis cfg)) = obs cfg (reach cfg (gblocks es)).
+  /\ obs cfg (fold_left gstep es (genesis cfg)) = obs cfg (reach cfg (gblocks es))
+  /\ (forall role index a, obsX (fold_left gstep es (genesis cfg)) role index a = obsX (reach cfg (gblocks es)) role index a).
 Proof.
   intros Hok. unfold reach.
   assert (G : forall s s', Sim false s s' -> Coh cfg s -> Coh cfg s' -> Inv cfg (L s) -> Inv cfg (L s') ->
@@ -822,9 +945,9 @@ Proof.
       + apply (reinit_coh cfg CSZ _ Cs').
       + replace (L (reinit cfg s')) with (L s'); [exact Is'|]. unfold reinit. destruct (_ =? 0); reflexivity. }
   assert (S0 : Sim false (genesis cfg) (genesis cfg)).
-  { pose proof (genesis_coh cfg) as [[c1 c2 c3 c4 c5 c6] _ _]. constructor; auto. }
+  { pose proof (genesis_coh cfg) as [[c1 c2 c3 c4 c5 c6 c7 c8] _ _]. constructor; auto. }
   pose proof (G _ _ S0 (genesis_coh cfg) (genesis_coh cfg) (genesis_inv cfg CW) (genesis_inv cfg CW) Hok) as S.
-  split; [apply (Sim_sto _ _ _ S)|apply (Sim_obs _ _ _ S)].
+  split; [apply (Sim_sto _ _ _ S)|split; [apply (Sim_obs _ _ _ S)|intros role index a; apply (Sim_obsX _ _ _ role index a S)]].
 Qed.
 
 End Restart.
